@@ -32,6 +32,26 @@ CHECKS.update({
             "Kill model: page cache survives. mmap stores are reported at record granularity by vhook.IO lines next to the memcpy; a crash inside one memcpy is covered by the torn-tail check C09.", "3/C08"),
 })
 
+CHECKS.update({
+    "C05": ("exploration", "deterministic simulation + iterator sequence model over layouts produced by real flushes/compactions",
+            "Iterator-heavy scripts over keys that nest and contain 0x00/0xff, on data spread over memtables, L0 and deeper levels by real flush and compaction steps under the scheduler; the exact item sequence (or, for AllVersions under compaction, subsequence-of-written plus the retention lower bound) is compared with the model for every option combination drawn.",
+            "InternalAccess/!badger! keys are not generated (no internal keys live in the LSM tree in this version). Reverse+Prefix follows the documented Seek(prefix)/Valid semantics; seeks are generated inside the prefix.", "3/C05"),
+    "C06": ("exploration", "deterministic simulation, value sizes around the static/dynamic threshold, all read paths",
+            "Every read path compares value bytes, user meta, expiry, version and discard-earlier flag with the write, with sizes around the static threshold and the VLogPercentile-driven threshold while its listener goroutine runs, under compression/encryption/cache swarm.", "Dynamic threshold changes depend on the histogram the workload produces; probe counts are reported.", "3/C06"),
+    "C12": ("exploration", "deterministic simulation with real compactor goroutines, clock jumps and a never-forgetting model",
+            "2-4 real compactor goroutines (production pickers) scheduled phase by phase against clients, with tiny tables/levels, L0 stalls, split sub-compactions and seeded clock jumps ageing tables; every read of long-running and fresh transactions must equal the MVCC model, which never discards: nothing lost, nothing resurrected.",
+            "Lmax->Lmax rewrites need >=10 MiB of stale data per table and are not reached (probe reported at zero); L0->L0 needs >=4 aged idle L0 tables and is rare.", "3/C12"),
+    "C13": ("exploration", "deterministic simulation + retention lower bound computed from observed discard watermarks",
+            "AllVersions/NewKeyIterator results under real compactions must be a subsequence of the written versions and contain every version above the highest discard watermark any compaction used, plus at or below it the newest NumVersionsToKeep per key cut at the first delete/expired/discard-earlier entry.",
+            "The watermark is learned from a vhook event inside subcompact (the value the code actually used). Merge entries are covered by C31.", "3/C13"),
+    "C33": ("exploration", "deterministic simulation with the clock crossing expiry times",
+            "TTL entries, deletes and non-expiring overwrites with seeded clock jumps across expiry while transactions are open, before/after flush and compaction; Get and iterators equal the model evaluated at the simulated time of the read.",
+            "Stream/Backup read paths are exercised by C24/C25, not here.", "3/C33"),
+    "C34": ("exploration", "deterministic simulation with dense points in the oracle and both watermark goroutines + step invariants",
+            "Invariants evaluated on the event trace while 2-5 clients commit and begin: no transaction starts at a timestamp with a commit at or below it in flight; a watermark advance never covers an index that was begun and not done in the prefix of marks consumed; every waiter is released (deadlock detector).",
+            "Watermark invariant is stated over the prefix of marks the process goroutine has consumed (a Begin issued later re-begins an index the mark may already cover).", "3/C34"),
+})
+
 PENDING = {}  # property -> reason while not yet implemented
 
 def main():
